@@ -37,6 +37,8 @@ impl Tr for NoInfoTr {
 pub struct NoInfoG<T>(pub T);
 #[derive(TypeInfo, Encode)]
 pub struct Inner<T>(pub T);
+#[derive(TypeInfo, Encode)]
+pub struct InnerLt<'a>(pub &'a str);
 '''
 
 
